@@ -4,7 +4,7 @@
     sentinel and is tiled EXACTLY by free-list nodes and objects, the free list is strictly increasing,
     coalesced (no two chunks adjacent), sizes positive and aligned, all mark bits clear. *)
 From Coq Require Import ZArith List Permutation.
-From ChibiV Require Import Gen.C10_Consts C10.Model C10.Spec C10.Proofs C10.Sweep C10.Theorems C10.More C10.Examples.
+From ChibiV Require Import Gen.C10_Consts C10.Model C10.Spec C10.Proofs C10.Sweep C10.Theorems C10.More C10.Oom C10.Examples.
 Import ListNotations.
 Local Open Scope Z_scope.
 
@@ -97,3 +97,16 @@ Theorem heap_bounded_partial : forall L st0 ops,
   <= Z.max (ratio_num * total_size st0) ((1 + factor_num) * ratio_den * L).
 Proof. exact heap_bounded_partial_lemma. Qed.
 Print Assumptions heap_bounded_partial.
+
+(** after a collection that reports max_freed >= size the retry succeeds *)
+Theorem gc_then_fits : forall st mss st1 mf sf size, Inv st -> gc st mss = Some (st1, mf, sf) ->
+  0 < size -> size <= mf -> try_alloc st1 size <> None.
+Proof. exact gc_then_fits_lemma. Qed.
+Print Assumptions gc_then_fits.
+
+(** sexp_alloc hands out the out-of-memory object only when a maximum heap size is set and reached *)
+Theorem oom_only_at_max : forall st size mss, Inv st -> 0 < size -> (unit_sz | size) ->
+  snd (alloc st size mss) = AOom ->
+  max_size st <> 0 /\ exists st1 mf sf, gc st mss = Some (st1, mf, sf) /\ max_size st <= total_size st1.
+Proof. exact oom_only_at_max_lemma. Qed.
+Print Assumptions oom_only_at_max.
